@@ -4,7 +4,7 @@
    (DfpnRep3).  DFPN proves the root for White; dfpn_proven_sound turns that into a forced win.  With attacker Black the
    same run disproves the root without a table hit; dfpn_disproven_sound_nohit gives "Black has no forced win". *)
 From Coq Require Import NArith ZArith List Bool Lia.
-Require Import Board Move Refine GameOver Eval Search Alloc Reach1 AndOr Pn PnFacts Dfpn DfpnFacts DfpnFactsL DfpnExample PnCong1 PnCong3 DfpnRep1 DfpnRep3.
+Require Import Board Move Refine GameOver Eval Search Alloc Reach1 AndOr Pn PnFacts Dfpn DfpnFacts DfpnFactsL DfpnExample PnCong1 PnCong3 DfpnRep1 DfpnRep3 DfpnRep8.
 Require Import Generated.Consts.
 Import ListNotations.
 Open Scope N_scope.
@@ -64,6 +64,25 @@ Proof.
   - apply SpL_step. exact c_step.
   - apply SpL_small. exact c_small.
   - apply SpL_hashN. exact c_hash.
+  - apply SpL_moves. exact c_moves.
+  - apply SpL_threats_def. exact c_threats_def.
+  - exact root11_in.
+Qed.
+
+(* the full theorem (repaired solver): no condition on the counters *)
+Example dfpn_disproven_sound_cyclic :
+  (let '(_, e, _) := prove gen_basis false 1000 1000 16 root11 in result_of false root11 e = 2) /\
+  forall n, wn position (succs gen_basis) (terminal false) (attp false) n root11 = false.
+Proof.
+  assert (Hrun : let '(_, e, _) := prove gen_basis false 1000 1000 16 root11 in result_of false root11 e = 2) by (vm_compute; reflexivity).
+  split; [exact Hrun|].
+  destruct (prove gen_basis false 1000 1000 16 root11) as [[s e] w] eqn:E.
+  apply (dfpn_disproven_sound gen_basis false (SpL reach11h)) with (lfuel := 1000%nat) (dfuel := 1000%nat) (entries := 16%nat) (s := s) (e := e) (w := w);
+    try assumption.
+  - apply SpL_step. exact c_step.
+  - apply SpL_small. exact c_small.
+  - apply SpL_hashF. exact c_hash.
+  - apply SpL_nonzero. exact c_nonzero.
   - apply SpL_moves. exact c_moves.
   - apply SpL_threats_def. exact c_threats_def.
   - exact root11_in.
